@@ -50,6 +50,24 @@ let run_entries infile outfile =
   Printf.fprintf oc "SUMMARY entries=%d bad=%d\n" !n !bad;
   close_out oc
 
+(* route: the S lines of a cluster-path trace ("S now nowms conn arghex* | reply") -> one letter per
+   step: R refused by the filter, L executed locally (rconf), P proposed to the log *)
+let run_route infile outfile =
+  let oc = open_out_bin outfile in
+  List.iter (fun l ->
+      if String.length l > 5 && String.sub l 0 5 = "CASE " then output_string oc (l ^ "\n")
+      else if String.length l > 2 && String.sub l 0 2 = "S " then begin
+        let bar = String.index l '|' in
+        match split_ws (String.sub l 0 bar) with
+        | _ :: _ :: _ :: _ :: args ->
+          let args = List.map unhx args in
+          output_string oc (match cluster_filter args with
+              | None -> "R\n"
+              | Some a -> if is_rconf a then "L\n" else "P\n")
+        | _ -> output_string oc "?\n"
+      end) (read_lines infile);
+  close_out oc
+
 (* apply: C07 (D).  Case file:
      CASE <name> <base> <payload kinds: string over c/e/f>   (c = command, e = empty, f = conf change)
      W <lo> <len>                                            (one Ready batch = window of the log)
@@ -94,4 +112,5 @@ let () =
   | [_; "enc"; i; o] -> run_enc i o
   | [_; "entries"; i; o] -> run_entries i o
   | [_; "apply"; i; o] -> run_apply i o
+  | [_; "route"; i; o] -> run_route i o
   | _ -> prerr_endline "usage: clusterrun <enc|entries|apply> <in> <out>"; exit 2
